@@ -140,6 +140,7 @@ type Engine struct {
 	initGlobals    map[*ssa.Package]map[*ssa.Global]bool
 	initDeny       map[string]bool
 	detSched       bool
+	preemptIn      []string
 	xSolver        *Solver
 	CrossChecked   int
 	CrossMismatch  int
@@ -1889,21 +1890,95 @@ func (e *Engine) appendV(c *ssa.CallCommon, args []value) value {
 	switch s := args[0].(type) {
 	case *bytesV:
 		add := args[1].(*bytesV)
-		return e.concat(s, add)
+		return e.appendBytes(s, add)
 	case *sliceV:
 		add := args[1].(*sliceV)
-		n := make([]value, 0, s.len+add.len)
-		if s.arr != nil {
-			n = append(n, (*s.arr)[s.off:s.off+s.len]...)
+		if add.len == 0 {
+			return s
 		}
-		if add.arr != nil {
-			for _, v := range (*add.arr)[add.off : add.off+add.len] {
-				n = append(n, copyVal(v))
+		// Go semantics: with enough capacity the elements are written in place, so
+		// other slices of the same array observe them
+		if s.arr != nil && s.len+add.len <= s.cap {
+			for i := 0; i < add.len; i++ {
+				p := &(*s.arr)[s.off+s.len+i]
+				e.hbAccess(p, true, "")
+				*p = copyVal((*add.arr)[add.off+i])
+			}
+			return &sliceV{arr: s.arr, off: s.off, len: s.len + add.len, cap: s.cap}
+		}
+		need := s.len + add.len
+		newCap := 2 * s.cap
+		if newCap < need {
+			newCap = need
+		}
+		n := make([]value, need, newCap)
+		if s.arr != nil {
+			for i := 0; i < s.len; i++ {
+				n[i] = copyVal((*s.arr)[s.off+i])
 			}
 		}
-		return &sliceV{arr: &n, len: len(n), cap: len(n), isNil: s.isNil && len(n) == 0}
+		for i := 0; i < add.len; i++ {
+			n[s.len+i] = copyVal((*add.arr)[add.off+i])
+		}
+		n = n[:newCap]
+		var el types.Type
+		if sl, ok := c.Args[0].Type().Underlying().(*types.Slice); ok {
+			el = sl.Elem()
+		}
+		for i := need; i < newCap; i++ {
+			if el != nil {
+				n[i] = zero(el)
+			}
+		}
+		return &sliceV{arr: &n, len: need, cap: newCap}
 	}
 	panic(fmt.Sprintf("append %T", args[0]))
+}
+
+// appendBytes is append for []byte: in place when the capacity suffices (so
+// aliasing slices observe the new bytes), otherwise into a fresh array.
+func (e *Engine) appendBytes(s, add *bytesV) *bytesV {
+	if al, ok := add.concreteLen(); ok && al == 0 {
+		return s
+	}
+	room := BV(64, uint64(s.cap))
+	if !s.isNil && s.cap > 0 && e.decide(Ule(Add(s.n, add.n), room)) {
+		addCap := add.cap
+		if l, ok := add.concreteLen(); ok {
+			addCap = l
+		}
+		if hi := e.rangeOf(add.n).hi; hi < uint64(addCap) {
+			addCap = int(hi)
+		}
+		if sl, ok := s.concreteLen(); ok {
+			for j := 0; j < addCap && sl+j < s.cap; j++ {
+				in := Ult(BV(64, uint64(j)), add.n)
+				s.arr.b[s.off+sl+j] = e.ite(in, add.arr.b[add.off+j], s.arr.b[s.off+sl+j])
+			}
+		} else {
+			// symbolic length: position s.n+j receives add[j]
+			for j := 0; j < addCap; j++ {
+				in := Ult(BV(64, uint64(j)), add.n)
+				idx := Add(s.n, BV(64, uint64(j)))
+				for k := 0; k < s.cap; k++ {
+					hit := And(in, Eq(idx, BV(64, uint64(k))))
+					s.arr.b[s.off+k] = e.ite(hit, add.arr.b[add.off+j], s.arr.b[s.off+k])
+				}
+			}
+		}
+		return &bytesV{arr: s.arr, off: s.off, n: Add(s.n, add.n), cap: s.cap}
+	}
+	r := e.concat(s, add)
+	// amortised growth: leave spare capacity as the Go runtime does
+	spare := r.cap
+	if spare < 8 {
+		spare = 8
+	}
+	for i := 0; i < spare; i++ {
+		r.arr.b = append(r.arr.b, BV(8, 0))
+	}
+	r.cap += spare
+	return r
 }
 
 var _ = math.Abs
